@@ -5,6 +5,9 @@ package c09
 import (
 	"fmt"
 	"math/rand/v2"
+	"time"
+
+	"github.com/WuKongIM/WuKongIM/pkg/db/message"
 
 	channel "github.com/WuKongIM/WuKongIM/pkg/db/message/channelcompat"
 	"github.com/WuKongIM/WuKongIM/pkg/quorumlog"
@@ -613,6 +616,9 @@ type c09Plan struct {
 	issuers [][]c09Op
 	owner   [][]int // issuer -> channel indexes
 	restart []int   // single-issuer plans: op index -> 0 none, 1 clean reopen, 2 crash reopen (before the op)
+	// coord, when set, re-configures the live store's commit coordinator
+	// (shards / collection window / per-commit request cap).
+	coord *message.CommitCoordinatorConfig
 }
 
 func c09MakePlan(rng *rand.Rand, opsPerIssuer int, forceSingle bool) *c09Plan {
@@ -665,6 +671,10 @@ func c09MakePlan(rng *rand.Rand, opsPerIssuer int, forceSingle bool) *c09Plan {
 			ops = append(ops, c09Op{p.gens[c].gen("")})
 		}
 		p.issuers = append(p.issuers, ops)
+	}
+	if !typed && rng.IntN(5) < 2 {
+		p.coord = &message.CommitCoordinatorConfig{Shards: []int{1, 2, 4}[rng.IntN(3)], MaxRequests: []int{0, 1, 2}[rng.IntN(3)],
+			FlushWindow: []time.Duration{0, -1, 2 * time.Millisecond}[rng.IntN(3)]}
 	}
 	if nIss == 1 {
 		p.restart = make([]int, len(p.issuers[0]))
